@@ -1467,11 +1467,18 @@ fn gen_u(property: &'static str, seed: u64, run: u64, thorough: bool) -> Plan {
     let n = r.range(5, if thorough { 400 } else { 150 });
     let mut t = r.below(1_000_000);
     // loss history shape: monotone, jumping, or zero after non-zero
-    let shape = r.below(4);
+    // (4, 5: loss rates over the whole logarithmic range down to 1e-10, held or creeping upwards by
+    // less than a millionth per report - what a long loss-free history with one loss event gives)
+    let shape = r.below(6);
     let mut p = 0.0f64;
     let base_rtt = r.log_range(1, 60_000);
+    // "climb": reports about one round trip apart that allow the rate to double every time, so
+    // that slow start gets far before the first loss is reported
+    let climb = r.chance(0.3);
+    let log_p = |r: &mut Rng| 10f64.powf(-10.0 * r.f64());
     for _ in 0..n {
-        t += match r.below(8) {
+        t += if climb && r.chance(0.85) { r.range(base_rtt * 1000, base_rtt * 3000 + 1000) } else { 0 };
+        t += match if climb { r.below(3) } else { r.below(8) } {
             0 => 0,
             1 => r.range(1, 1000),
             2 | 3 => r.range(1000, 100_000),
@@ -1479,11 +1486,27 @@ fn gen_u(property: &'static str, seed: u64, run: u64, thorough: bool) -> Plan {
             6 => r.range(2_000_000, 30_000_000),
             _ => r.range(30_000_000, 600_000_000),
         };
-        match r.below(10) {
+        match if climb { r.range(4, 9) } else { r.below(10) } {
             0..=2 => plan.push(t, 1, Op::RateSent { ep: 0 }),
             3..=5 => plan.push(t, 1, Op::RateStep { ep: 0, fb: None }),
             _ => {
                 p = match shape {
+                    4 => {
+                        if p == 0.0 {
+                            if r.chance(0.15) { log_p(&mut r) } else { 0.0 }
+                        } else if r.chance(0.1) {
+                            log_p(&mut r)
+                        } else {
+                            p
+                        }
+                    }
+                    5 => {
+                        if p == 0.0 {
+                            if r.chance(0.15) { log_p(&mut r) } else { 0.0 }
+                        } else {
+                            (p + 1e-6 * r.f64() * r.f64()).min(1.0)
+                        }
+                    }
                     0 => (p + r.f64() * 0.02).min(1.0),
                     1 => {
                         if r.chance(0.3) {
@@ -1508,7 +1531,7 @@ fn gen_u(property: &'static str, seed: u64, run: u64, thorough: bool) -> Plan {
                     4 => r.log_range(1, 60_000),
                     _ => base_rtt,
                 };
-                let rate = match r.below(6) {
+                let rate = match if climb { r.range(1, 4) } else { r.below(6) } {
                     0 => 0,
                     1 => u32::MAX,
                     2 => r.u32(),
